@@ -8,7 +8,7 @@
    * a file is a list of [item]s, the outcomes of successive readFileBlock calls *after* the
      header: a data block with its abstract decode outcome ([IBlock objs] | [IBad e]) or a read
      error ([IRdErr e], e.g. the final io.EOF); every read past the list is [IRdErr eEOF].
-   * channels are FIFO lists; capacity of each worker input/output channel is 10/n (integer
+   * channels are FIFO lists; capacity of each worker input/output channel is budget/n (budget = 10; integer
      division; 0 = unbuffered = rendezvous: a send is enabled only while the receiver is
      committed to receiving from that empty channel), capacity of the ordered channel is n.
    * every blocking operation is one step; a [select] with several ready cases is resolved by
@@ -58,14 +58,16 @@ Record cfg := mkCfg {
                                                 false ctx.Err()==nil || err==nil  (original) *)
   c_recheck : bool;   (* serializer re-checks ctx.Err() after every receive (repaired, 6ff9f52);
                          false: original code, forwards whatever it received *)
-  c_nextctx : bool    (* true (repaired, 1677bc6): the serializer never writes cData.Err, Next takes
+  c_nextctx : bool;   (* true (repaired, 1677bc6): the serializer never writes cData.Err, Next takes
                          the error of a closed ordered queue from cData.Err, else ctx.Err(), and
                          stores io.EOF; false (original): the serializer stores ctx.Err() into
                          cData.Err on its Done branches and Next reports cData.Err or io.EOF *)
+  c_budget : nat      (* numChanels := c_budget / n : capacity of every worker input/output channel
+                         (10 in the source; no theorem depends on the value) *)
 }.
 (* the code as it is now *)
 Definition current (c : cfg) : bool := c_and c && c_recheck c && c_nextctx c.
-Definition cap (c : cfg) : nat := 10 / c_n c.
+Definition cap (c : cfg) : nat := c_budget c / c_n c.
 Definition loop_cond (c : cfg) (ctx_ok err_nil : bool) : bool :=
   if c_and c then ctx_ok && err_nil else ctx_ok || err_nil.
 
